@@ -279,42 +279,54 @@ Fixpoint run_requests (fs : FS) (fail_rest : bool) (reqs : list fsreq) : FS * li
         let '(fs', rs) := run_requests fs1 (resp_fail rep) t in (fs', rep :: rs)
   end.
 
+(* small accessors used by finalize_receive *)
+Definition staged_content (s : rstate) : bytes := match r_staged s with Some b => b | None => [] end.
+Definition expected_cksum (s : rstate) : N := match r_cksum s with Some c => c | None => 0 end.
+Definition meta_ck (s : rstate) : cktype := match r_meta s with Some m => md_ck m | None => CkNull end.
+Definition meta_dst (s : rstate) : bytes := match r_meta s with Some m => md_dst m | None => [] end.
+Definition meta_reqs (s : rstate) : list fsreq := match r_meta s with Some m => md_reqs m | None => [] end.
+Definition delivery_complete (s : rstate) : bool :=
+  is_some (r_meta s) &&
+  (negb (is_file_transfer s) ||
+   match r_fsize s with Some f => is_complete (r_segs s) f | None => false end).
+
+(* finalize_receive, part 1: checksum verification; returns (state, continue?) *)
+Definition fr_verify (now : N) (s : rstate) : rstate * bool :=
+  let content := staged_content s in
+  let s := set_r_staged (Some content) s in            (* get_handle opens the tempfile *)
+  if cksum (meta_ck s) content =? expected_cksum s then (s, true)
+  else handle_fault now FileChecksumFailure s.
+
+(* part 2: copy the staged file to its destination *)
+Definition fr_store (s : rstate) : rstate :=
+  match fs_write_file (r_fs s) (meta_dst s) (staged_content s) with
+  | Some fs' => set_r_fstat FRetained (set_r_staged None (set_r_fs fs' s))
+  | None => set_r_fstat FRejection s
+  end.
+
+(* part 3: a filestore rejection is a fault; returns (state, continue?) *)
+Definition fr_rejection (now : N) (s : rstate) : rstate * bool :=
+  match r_fstat s with
+  | FRejection => handle_fault now FileStoreRejectionC s
+  | _ => (s, true)
+  end.
+
+(* part 4: the filestore requests, then the Finished indication *)
+Definition fr_requests (s : rstate) : rstate :=
+  let '(fs', resps) := run_requests (r_fs s) false (meta_reqs s) in
+  let s := set_r_resps resps (set_r_fs fs' s) in
+  emit_ind (IFinished (generate_report s) (r_fstat s) (r_dc s) resps) s.
+
 Definition finalize_receive (now : N) (s : rstate) : rstate :=
-  let complete :=
-    is_some (r_meta s) &&
-    (negb (is_file_transfer s) ||
-     match r_fsize s with Some f => is_complete (r_segs s) f | None => false end) in
-  let s := set_r_dc (if complete then DComplete else DIncomplete) s in
-  (* file part: returns (state, continue?) *)
+  let s := set_r_dc (if delivery_complete s then DComplete else DIncomplete) s in
   let '(s, go) :=
     if is_file_transfer s then
-      let ck := match r_cksum s with Some c => c | None => 0 end in
-      let ckt := match r_meta s with Some m => md_ck m | None => CkNull end in
-      let content := match r_staged s with Some b => b | None => [] end in
-      let s := set_r_staged (Some content) s in            (* get_handle opens the tempfile *)
-      let '(s, go) :=
-        if cksum ckt content =? ck then (s, true)
-        else handle_fault now FileChecksumFailure s in
-      if go then
-        let dst := match r_meta s with Some m => md_dst m | None => [] end in
-        match fs_write_file (r_fs s) dst content with
-        | Some fs' => (set_r_fstat FRetained (set_r_staged None (set_r_fs fs' s)), true)
-        | None => (set_r_fstat FRejection s, true)
-        end
-      else (s, false)
+      let '(s, go) := fr_verify now s in
+      if go then (fr_store s, true) else (s, false)
     else (set_r_fstat FUnreported s, true) in
   if go then
-    let '(s, go) :=
-      match r_fstat s with
-      | FRejection => handle_fault now FileStoreRejectionC s
-      | _ => (s, true)
-      end in
-    if go then
-      let reqs := match r_meta s with Some m => md_reqs m | None => [] end in
-      let '(fs', resps) := run_requests (r_fs s) false reqs in
-      let s := set_r_resps resps (set_r_fs fs' s) in
-      emit_ind (IFinished (generate_report s) (r_fstat s) (r_dc s) resps) s
-    else s
+    let '(s, go) := fr_rejection now s in
+    if go then fr_requests s else s
   else s.
 
 Definition check_finished (now : N) (s : rstate) : rstate :=
@@ -615,6 +627,13 @@ Arguments send_finished {FS}.
 Arguments send_naks {FS}.
 Arguments answer_prompt {FS}.
 Arguments send_pdu {FS}.
+Arguments staged_content {FS}.
+Arguments expected_cksum {FS}.
+Arguments meta_ck {FS}.
+Arguments meta_dst {FS}.
+Arguments meta_reqs {FS}.
+Arguments delivery_complete {FS}.
+Arguments fr_rejection {FS}.
 Arguments ht_delayed {FS}.
 Arguments ht_inactivity {FS}.
 Arguments ht_phase {FS}.
